@@ -93,6 +93,7 @@ fn run(group: &str, t: &mut Tally, rng: &mut Rng) {
         "curves" => curves::consistency(t, rng),
         "scalar" => curves::scalar_paths(t, rng),
         "subgroup" => curves::subgroup(t, rng),
+        "msm" => curves::msm(t, rng),
         "pairing" => pairing::all(t, rng, false),
         "pairing_big" => pairing::all(t, rng, true),
         "target" => pairing::all_target(t, rng),
